@@ -15,6 +15,16 @@ The tie (harness/comp/deflate.c = real compression.c + zlib + websocket.c, ASan/
            send path compresses and an RFC 7692 peer built on plain zlib inflates; that peer deflates and the
            real receive path (direct calls, text variant, masked frames through ws_get_header) inflates;
            property evaluated directly: output == input;
+  il       the same client->server round trip in EVERY presentation on the wire: text / binary messages, whole or in
+           fragments, with ping (empty, with payload, 125 bytes) / pong / (last) close frames in front of, between
+           (every position) and behind the fragments, context takeover on and off, message sequences on one
+           connection; every frame fed on its own through ws_get_header .. ws_handle_frame.  Clause evaluated on the
+           implementation: every data message delivered exactly once, unchanged, through the right callback (message
+           callback when whole, frame callback when fragmented); every ping answered by a pong with the same payload,
+           nothing else sent; behind the message the flags are clear and strm_decomp.avail_in == 0 (nothing left in the
+           reassembly buffer: the next message round-trips); a close ends the connection with 1000 and no error.
+           Frame by frame (events, flags, avail_in) compared with the model (Cjet.Deflate.handleFrame; zlib = the oracle
+           "these fragments inflate to this payload");
   mut/dec  corrupt streams (bit flips, truncation, insertions, junk): any verdict, but no sanitizer report.
   comp     the compressor alone (websocket_compress_bounded with the size send_frame uses, the 2*len wrapper of the
            tests, and destinations of need-4 .. need+2 / 0 / 3 / 4 / 5 bytes, exactly sized on the heap), message
@@ -584,6 +594,325 @@ def gen_comp(ctx):
     return out
 
 
+# --------------------------------------------------------------------------- interleaved control frames (op il)
+# a script: (setup, [message]); message = {"k": t|b|T|B, "cuts": None | [sizes], "ctl": [(pos, kind, bytes)], "p": payload}
+# pos = number of fragments of this message in front of the control frame; kind P ping, Q pong, X close
+
+IL_SETUPS_TAKEOVER = ["L2:12:0:12:0", "L3:15:0:15:0"]
+IL_SETUPS_NO_TAKEOVER = ["L1:8:1:9:1", "L2:12:1:12:1"]
+
+
+def il_nfr(m):
+    return 1 if m["cuts"] is None else len(m["cuts"]) + 1
+
+
+def il_line(setup, msgs):
+    out = []
+    for m in msgs:
+        cuts = "-" if m["cuts"] is None else ".".join(str(c) for c in m["cuts"])
+        ctl = ".".join("%d%s%s" % (pos, kind, pl.hex()) for pos, kind, pl in m["ctl"]) or "-"
+        out.append("%s/%s/%s/%s" % (m["k"], cuts, ctl, hx(m["p"])))
+    return "il %s %s" % (setup, " ".join(out))
+
+
+def il_parse(line):
+    w = line.split()
+    msgs = []
+    for t in w[2:]:
+        k, cuts, ctl, p = t.split("/")
+        items = []
+        if ctl != "-":
+            for it in ctl.split("."):
+                mm = re.match(r"(\d+)([PQX])([0-9a-fA-F]*)$", it)
+                items.append((int(mm.group(1)), mm.group(2), bytes.fromhex(mm.group(3))))
+        msgs.append({"k": k, "cuts": None if cuts == "-" else [int(c) for c in cuts.split(".")], "ctl": items,
+                     "p": C.unhex(p)})
+    return w[1], msgs
+
+
+def il_wire(m):
+    """The frames of one message in wire order: ("D", fragment index) | (kind, payload)."""
+    n = il_nfr(m)
+    out = []
+    for i in range(n + 1):
+        out += [(kind, pl) for pos, kind, pl in m["ctl"] if pos == i]
+        if i < n:
+            out.append(("D", i))
+    return out
+
+
+def il_describe(m):
+    kind = {"t": "text, compressed", "b": "binary, compressed", "T": "text, not compressed", "B": "binary, not compressed"}[m["k"]]
+    n = il_nfr(m)
+    names = {"P": "ping", "Q": "pong", "X": "close"}
+    ctl = ", ".join("%s%s %s" % (names[k], "(%d bytes)" % len(pl) if pl else "",
+                                 "in front of the message" if pos == 0 else "behind the message" if pos >= n else
+                                 "between fragments %d and %d" % (pos, pos + 1)) for pos, k, pl in m["ctl"])
+    return "%s, %d bytes, %s%s" % (kind, len(m["p"]), "one frame" if n == 1 else "%d fragments" % n, "; " + ctl if ctl else "")
+
+
+def gen_il(ctx, maxmsg):
+    """Returns list of (setup, msgs, family)."""
+    out = []
+    r0 = C.rng("c19-il-directed")
+    text = payload_of("text", 300, r0)
+    rep = payload_of("rep", 700, r0)
+    rnd = payload_of("rand", 200, r0)
+    small = b'{"id":1}'
+    ctl_variants = [("P", b""), ("P", b"\x01\x02ping"), ("Q", b""), ("Q", b"unsolicited")]
+    setups = [(s, True) for s in IL_SETUPS_TAKEOVER] + [(s, False) for s in IL_SETUPS_NO_TAKEOVER]
+
+    def msg(k, cuts, ctl, p):
+        return {"k": k, "cuts": cuts, "ctl": list(ctl), "p": p}
+
+    # 2 and 3 fragments x every position (in front, between each pair, behind) x ping / ping with payload / pong x
+    # context takeover on / off x text / binary; behind it the same payload again in fragments (refers back to the first
+    # message under context takeover) and a whole message: nothing may be left over from the interleaved one
+    for (setup, takeover) in setups:
+        for k in ("t", "b"):
+            for cuts in ([7], [5, 9]):
+                n = len(cuts) + 1
+                for pos in range(0, n + 1):
+                    for (ck, cp) in ctl_variants:
+                        p = text if k == "t" else rep
+                        out.append((setup, [msg(k, cuts, [(pos, ck, cp)], p), msg(k, [3, 3], [], p), msg(k, None, [], small)],
+                                    "directed"))
+    # a control frame in every gap at once, several in one gap, the 125 byte limit, empty fragments around them
+    big = bytes(range(125))
+    for (setup, takeover) in setups:
+        for k in ("t", "b"):
+            p = text if k == "t" else rnd
+            out.append((setup, [msg(k, [4, 4, 4], [(0, "P", b"a"), (1, "P", b"b"), (1, "Q", b""), (2, "Q", b"c"), (3, "P", b""), (4, "P", b"e")], p),
+                                msg(k, [10], [(1, "P", big)], p), msg(k, None, [(0, "Q", big), (1, "P", big)], p)], "all-gaps"))
+            out.append((setup, [msg(k, [0, 0, 5], [(1, "P", b"x"), (2, "P", b"y"), (3, "Q", b"z")], p),
+                                msg(k, [100000], [(1, "P", b"")], p), msg(k, [1] * 12, [(i, "P", bytes([i])) for i in range(1, 13)], p)],
+                        "empty-fragments"))
+            # compressed and uncompressed messages mixed on one connection, each with control frames between its fragments
+            out.append((setup, [msg(k.upper(), [6, 6], [(1, "P", b"u"), (2, "Q", b"")], p), msg(k, [6, 6], [(1, "P", b"c"), (2, "P", b"")], p),
+                                msg(k.upper(), [9], [(1, "P", b"")], p), msg(k, [9], [(1, "Q", b"")], p), msg(k, None, [], p)], "mixed"))
+    # (last) close: at every position of 2 and 3 fragments, with and without a status / reason
+    for (setup, takeover) in (setups[0], setups[2]):
+        for k in ("t", "b"):
+            for cuts in ([7], [5, 9]):
+                n = len(cuts) + 1
+                for pos in range(0, n + 1):
+                    for cp in (b"", b"\x03\xe8", b"\x03\xe8bye"):
+                        p = text if k == "t" else rep
+                        out.append((setup, [msg(k, [4], [(1, "P", b"")], p), msg(k, cuts, [(pos, "X", cp)], p), msg(k, None, [], small)],
+                                    "close"))
+    # negotiated set-ups (through the header callback)
+    for lv in (1, 2, 3):
+        for o in (PMD, PMD + "; " + CNC, PMD + "; %s=10; %s" % (CMW, SNC)):
+            for k in ("t", "b"):
+                out.append(("O%d:%s" % (lv, hx(o)), [msg(k, [8, 8], [(1, "P", b"n"), (2, "Q", b"")], text), msg(k, [2], [(1, "P", b"")], text),
+                                                    msg(k, None, [], text)], "negotiated"))
+    # sizes around the frame length borders and the message limit, a control frame between the halves
+    for n in (1, 2, 6, 125, 126, 127, maxmsg - 1, maxmsg, maxmsg + 1, 4096, 65535, 65536, 70000) if ctx.thorough else (1, 6, 126, maxmsg, maxmsg + 1, 4096, 70000):
+        for kind in ("rand", "text", "zero"):
+            p = payload_of(kind, n, r0)
+            k = "t" if kind == "text" else "b"
+            out.append(("L3:15:0:15:0", [msg(k, [max(1, n // 2)], [(1, "P", b"half")], p), msg(k, [1], [(1, "Q", b"")], p)], "sizes"))
+    # seeded: random fragmentations with random control frames
+    setups_all = [s for s, _ in setups] + ["L%d:%d:%d:%d:%d" % (lv, cm, cn, sm, sn) for lv in (1, 2, 3) for cm in (8, 9, 11, 15)
+                                            for cn in (0, 1) for sm in (9, 15) for sn in (0, 1)]
+    kinds = ("zero", "rand", "high", "text", "rep")
+    for i in range(250 if not ctx.thorough else 5000):
+        r = C.rng("c19-il", i)
+        msgs = []
+        nm = r.choice((1, 2, 3, 5))
+        for j in range(nm):
+            ln = r.choice((r.randrange(0, 12), r.randrange(6, 600), int(2 ** r.uniform(3, 16 if ctx.thorough and r.randrange(8) == 0 else 12))))
+            pk = r.choice(kinds)
+            k = r.choice("ttbbbTB")
+            if k in "tT" and pk in ("rand", "high"):
+                pk = "text"
+            p = payload_of(pk, ln, r)
+            if r.randrange(5) == 0:
+                cuts = None
+            else:
+                cuts = [r.choice((0, 1, 2, 3, r.randrange(0, 40), int(2 ** r.uniform(0, 11)))) for _ in range(r.choice((1, 1, 2, 2, 3, 6)))]
+            n = 1 if cuts is None else len(cuts) + 1
+            ctl = []
+            for _ in range(r.choice((0, 1, 1, 2, 3, 6))):
+                ck = r.choice("PPPQQ")
+                cl = r.choice((0, 0, 1, 2, 4, 125, r.randrange(0, 126)))
+                ctl.append((r.randrange(0, n + 1), ck, bytes(r.getrandbits(8) for _ in range(cl))))
+            if j == nm - 1 and r.randrange(6) == 0:
+                ctl.append((r.randrange(0, n + 1), "X", r.choice((b"", b"\x03\xe8", b"\x03\xe9going"))))
+            msgs.append(msg(k, cuts, ctl, p))
+        out.append((r.choice(setups_all), msgs, "seeded"))
+    return out
+
+
+def il_close_ok(pl):
+    """A close frame the server has to accept (what the generators send)."""
+    return len(pl) == 0 or (len(pl) >= 2 and 1000 <= int.from_bytes(pl[:2], "big") <= 1003 and all(b < 0x80 for b in pl[2:]))
+
+
+def eval_il(setup, msgs, res):
+    """The round-trip clause for every presentation, on one il observation of the implementation.
+    Returns (violations, per message [(c hex, sizes, tokens)] for the model, stats)."""
+    viol, forms, st = [], [], {}
+    obs = res["obs"]
+    if "noaccept" in obs:
+        return viol, None, {"noaccept": 1}
+    body = obs[2:] if obs.startswith("il") else obs
+    parts = re.findall(r"\[(?:[^\]]*)\]?", body)
+    closed = False
+    for i, m in enumerate(msgs):
+        what = "message %d (%s)" % (i, il_describe(m))
+        if i >= len(parts) or not parts[i].endswith("]"):
+            ab = res.get("abort")
+            viol.append("%s: %s" % (what, "no result" if ab is None else "sanitizer abort %s %s at %s" % (ab["kind"], ab["access"], ab["where"])))
+            forms = None
+            break
+        part = parts[i]
+        if part == "[skipped]":
+            if not closed:
+                viol.append("%s: not processed although the connection was not closed by the script" % what)
+            if forms is not None:
+                forms.append(None)
+            continue
+        mm = re.match(r"\[c=(\S+) frags=(\S+) :(.*) ; v=(\S+) end=(\w+)\]$", part)
+        if not mm:
+            viol.append("%s: unparsable observation %r" % (what, part[:200]))
+            forms = None
+            break
+        chex, sizes, toks, v, end = mm.group(1), [int(x) for x in mm.group(2).split(",")], mm.group(3).split(), mm.group(4), mm.group(5)
+        if forms is not None:
+            forms.append((chex, sizes, toks))
+        wire = il_wire(m)
+        n = il_nfr(m)
+        nclose = None
+        for j, fr in enumerate(wire):
+            if fr[0] == "X":
+                nclose = j
+                break
+        expect_tokens = len(wire) if nclose is None else nclose + 1
+        if end == "error":
+            viol.append("%s: the connection was closed with an error (%s)" % (what, toks[-1] if toks else "-"))
+            closed = True
+            continue
+        if len(toks) != expect_tokens:
+            viol.append("%s: %d frames processed, %d sent" % (what, len(toks), expect_tokens))
+            continue
+        frags_before_close = n if nclose is None else sum(1 for fr in wire[:nclose] if fr[0] == "D")
+        complete = frags_before_close == n
+        # delivery: exactly once, unchanged, through the right callback
+        if complete:
+            if v != "ok":
+                viol.append("%s: delivered %s" % (what, v))
+        elif v not in ("none",) and not (v.startswith("partial") and m["k"] in "TB"):
+            viol.append("%s: closed by the peer behind %d of %d fragments, but the application got %s" % (what, frags_before_close, n, v))
+        # every ping answered with its payload, nothing else sent; data only where it belongs
+        for j, (fr, tok) in enumerate(zip(wire, toks)):
+            evs, _, state = tok.partition("|")
+            sent = [e for e in evs.split(",") if e.startswith(("pong", "close", "sent"))]
+            if fr[0] == "P":
+                if sent != ["pong:" + hx(fr[1])]:
+                    viol.append("%s: ping %s answered with %s" % (what, hx(fr[1]), ",".join(sent) or "nothing"))
+            elif fr[0] == "X":
+                want = "close:1000:0" if il_close_ok(fr[1]) else None
+                if want and (sent != [want] or state != "x"):
+                    viol.append("%s: close frame %s answered with %s, state %s" % (what, hx(fr[1]), ",".join(sent) or "nothing", state))
+                closed = True
+            elif sent:
+                viol.append("%s: frame %d (%s) made the server send %s" % (what, j, fr[0], ",".join(sent)))
+            if fr[0] in "PQX" and any(e[0] in "fm" for e in evs.split(",") if e != "-"):
+                viol.append("%s: control frame %d reached a data callback (%s)" % (what, j, evs))
+        # nothing is left behind: flags clear, no reassembly buffer
+        if nclose is None:
+            last_state = toks[-1].partition("|")[2] if toks else ""
+            if end != "open":
+                viol.append("%s: connection %s" % (what, end))
+            elif last_state != "00:0:0":
+                viol.append("%s: behind the message the connection is not back in its initial state (is_fragmented, is_frag_compressed : "
+                            "frag_opcode : avail_in = %s): fragments are left in the reassembly buffer" % (what, last_state))
+            st["ctl_between"] = st.get("ctl_between", 0) + sum(1 for pos, kk, _ in m["ctl"] if 0 < pos < n)
+            if m["k"] in "tb" and n > 1 and any(0 < pos < n for pos, kk, _ in m["ctl"]):
+                st["compressed_fragmented_with_ctl_between"] = st.get("compressed_fragmented_with_ctl_between", 0) + 1
+        elif end != "closed":
+            viol.append("%s: connection %s behind a close frame" % (what, end))
+    return viol, forms, st
+
+
+def il_model_line(msgs, forms):
+    """The same frames for the model: the fragments as the implementation's peer produced them."""
+    out = []
+    for m, f in zip(msgs, forms):
+        if f is None:
+            break
+        chex, sizes, _ = f
+        c = C.unhex(chex)
+        frs, pos = [], 0
+        for sz in sizes:
+            frs.append(hx(c[pos:pos + sz]))
+            pos += sz
+        ctl = ".".join("%d%s%s" % (p_, k_, pl.hex()) for p_, k_, pl in m["ctl"]) or "-"
+        out.append("%s/%s/%s/%s" % (m["k"], ".".join(frs), ctl, hx(m["p"])))
+    return "il " + " ".join(out)
+
+
+def il_impl_tokens(forms):
+    out = []
+    for f in forms:                 # messages behind the closing one are not sent to the model either
+        if f is None:
+            break
+        out.append("[" + " ".join(f[2]) + "]")
+    return " ".join(out)
+
+
+def il_shrink(binp, setup, msgs):
+    """Greedy: fewer messages, fewer control frames, fewer fragments, shorter payloads — while the clause still fails."""
+    def fails(ms):
+        if not ms:
+            return False
+        rr = run_impl_chunk(binp, [il_line(setup, ms)])[0]
+        v, _, _ = eval_il(setup, ms, rr)
+        return bool(v)
+    cur = [dict(m) for m in msgs]
+    changed = True
+    rounds = 0
+    while changed and rounds < 40:
+        changed = False
+        rounds += 1
+        for i in range(len(cur)):
+            t = cur[:i] + cur[i + 1:]
+            if fails(t):
+                cur, changed = t, True
+                break
+        if changed:
+            continue
+        for i, m in enumerate(cur):
+            cands = []
+            for j in range(len(m["ctl"])):
+                cands.append(dict(m, ctl=m["ctl"][:j] + m["ctl"][j + 1:]))
+            for j, (pos, k, pl) in enumerate(m["ctl"]):
+                if pl:
+                    cands.append(dict(m, ctl=m["ctl"][:j] + [(pos, k, b"")] + m["ctl"][j + 1:]))
+            if m["cuts"]:
+                n = len(m["cuts"])
+                if n > 1:
+                    for j in range(n):
+                        # dropping a cut moves the control frames behind it one position forward
+                        cands.append(dict(m, cuts=m["cuts"][:j] + m["cuts"][j + 1:],
+                                          ctl=[(pos - 1 if pos > j + 1 else pos, k, pl) for pos, k, pl in m["ctl"]]))
+                for j in range(n):
+                    if m["cuts"][j] > 1:
+                        cands.append(dict(m, cuts=m["cuts"][:j] + [1] + m["cuts"][j + 1:]))
+            if len(m["p"]) > 1:
+                cands.append(dict(m, p=m["p"][:len(m["p"]) // 2]))
+                cands.append(dict(m, p=m["p"][:len(m["p"]) - 1]))
+            for cnd in cands:
+                t = cur[:i] + [cnd] + cur[i + 1:]
+                if fails(t):
+                    cur, changed = t, True
+                    break
+            if changed:
+                break
+    return cur
+
+
 # --------------------------------------------------------------------------- evaluation
 
 RT_MSG = re.compile(r"\[need=(-?\d+) db=(-?\d+) bound=(\S+) s2c=(\S+) c2s=(\S+) n=(\d+) frags=(\S+)\]")
@@ -1018,6 +1347,80 @@ def run(ctx, out):
                           "messages_in_the_former_f37_trigger": rstats.get("former_f37_trigger", 0),
                           "messages_zlib_refuses": rstats.get("zlib_refuses", 0)}
 
+    # ------------------------------------------------------------------ 3a. every presentation on the wire: control frames between fragments
+    ils = gen_il(ctx, maxmsg)
+    sc_path = os.path.join(C.ROOT, "scenarios", "C19-interleaved.txt")
+    if os.path.isfile(sc_path):
+        for l in open(sc_path).read().splitlines():
+            if l.startswith("il "):
+                su, ms = il_parse(l)
+                ils.insert(0, (su, ms, "scenario-file"))
+    illines = [il_line(su, ms) for su, ms, _ in ils]
+    ilres = run_impl(binp, illines, chunk=25)
+    ilbad, ilstats = [], {}
+    il_forms = []
+    nil_msgs = nil_ctl = 0
+    for (su, ms, fam), l, r in zip(ils, illines, ilres):
+        traces += 1
+        v, forms, st = eval_il(su, ms, r)
+        for kk, vv in st.items():
+            ilstats[kk] = ilstats.get(kk, 0) + vv
+        il_forms.append(forms)
+        nil_msgs += len(ms)
+        evals += len(ms)
+        bump("il." + fam)
+        for m in ms:
+            n_ = il_nfr(m)
+            bump("il.msg." + m["k"] + (".fragmented" if n_ > 1 else ".whole"))
+            for pos, kk, pl in m["ctl"]:
+                nil_ctl += 1
+                bump("il.ctl.%s.%s" % (kk, "front" if pos == 0 else "behind" if pos >= n_ else "between"))
+        nontrivial.add(("il", su, tuple((m["k"], tuple(m["cuts"] or ()), tuple((pos, kk, len(pl)) for pos, kk, pl in m["ctl"]), len(m["p"]))
+                                        for m in ms)))
+        if v:
+            ilbad.append((su, ms, l, r, v))
+    # the same frames through the model
+    il_mlines, il_midx = [], []
+    for k, ((su, ms, fam), forms) in enumerate(zip(ils, il_forms)):
+        if forms and forms[0] is not None:
+            il_mlines.append(il_model_line(ms, forms))
+            il_midx.append(k)
+    il_mod = model(il_mlines)
+    il_diff = []
+    if il_mod is not None:
+        for k, ml, mo in zip(il_midx, il_mlines, il_mod):
+            if canon(mo) != canon("il " + il_impl_tokens(il_forms[k])):
+                il_diff.append((k, ml, mo))
+    for (su, ms, l, r, v) in ilbad[:3]:
+        small = il_shrink(binp, su, ms)
+        sl = il_line(su, small)
+        rr = run_impl_chunk(binp, [sl])[0]
+        vv, forms, _ = eval_il(su, small, rr)
+        if not vv:                       # the shrunk script does not fail on its own run: report the original
+            small, sl, rr, vv, forms = ms, l, r, v, None
+        mm = None
+        if forms and forms[0] is not None:
+            mm = model([il_model_line(small, forms)])
+        out.violation("round trip with control frames between the fragments: " + vv[0],
+                      {"property": "C19", "script": [sl], "original": l if sl != l else None, "variant": "default", "seed": ctx.seed,
+                       "impl": rr, "model": mm[0] if mm else None, "clause": vv[0], "all_clauses": vv[:6],
+                       "messages": [il_describe(m) for m in small],
+                       "theorem": "roundtrip_interleaved_given_zlib / roundtrip_session_interleaved_given_zlib (Cjet.Deflate.handleFrame; "
+                                  "zlib assumed)"})
+    if not ilbad:
+        for (k, ml, mo) in il_diff[:3]:
+            su, ms, fam = ils[k]
+            out.violation("frame dispatch in front of the decompressor: model and implementation differ",
+                          {"property": "C19", "script": [illines[k]], "model_script": ml[:4000], "variant": "default", "seed": ctx.seed,
+                           "impl": ilres[k], "model": mo, "theorem": "correspondence of Cjet.Deflate.handleFrame with ws_handle_frame "
+                           "(roundtrip_interleaved_given_zlib, dispatch_memory_safe)"}, no_input=True)
+    cov["interleaved"] = {"scenarios": len(illines), "messages": nil_msgs, "control_frames": nil_ctl,
+                          "control_frames_between_fragments": ilstats.get("ctl_between", 0),
+                          "compressed_fragmented_messages_with_a_control_frame_between_fragments":
+                              ilstats.get("compressed_fragmented_with_ctl_between", 0),
+                          "failing": len(ilbad), "compared_with_model": len(il_mlines) if il_mod is not None else 0,
+                          "model_disagreements": len(il_diff)}
+
     # ------------------------------------------------------------------ 3b. the compressor alone, against its clause and the model
     comps = gen_comp(ctx)
     klines = [l for l, _ in comps]
@@ -1101,15 +1504,44 @@ def run(ctx, out):
         "evaluations": evals,
         "distinct_nontrivial": len(nontrivial),
         "rule": "distinct (capacity sequence with >= 2 copies) for frags, distinct accepted (response, level) for offers, "
-                "distinct (setup, mode, cuts, payload lengths) for round trips",
+                "distinct (setup, mode, cuts, payload lengths) for round trips, distinct (setup, per message kind / cuts / control frames / length) "
+                "for the interleaved round trips",
         "histogram": dict(sorted(hist.items())),
         "exhaustive": True,
         "exhaustive_what": "frags: every sequence of length <= 4 over the size alphabet %r (%d sequences); offers: every subset of the "
                            "four parameters with the listed window values%s; single-bit flips and truncations of one stream" % (
                                alpha, nex, " in every order" if ctx.thorough else " (orders sampled in the quick tier)"),
-        "samples": [flines[nex + 3] if len(flines) > nex + 3 else "", olines[7], olines[-1][:200], rlines[0][:200], clines[0][:200]],
+        "samples": [flines[nex + 3] if len(flines) > nex + 3 else "", olines[7], olines[-1][:200], rlines[0][:200], clines[0][:200],
+                    illines[len(illines) // 3][:300], illines[-1][:300]],
         "model_driver_used": bool(model_ok),
         "level_note": "PARTIAL: bookkeeping, sender safety and negotiation proved; zlib assumed (hTail, hInv, hBound); losslessness sampled",
     })
     if not model_ok and ctx.lean_ok:
         out.violation("model driver drv_deflate not available", {"property": "C19", "broken": "drv_deflate"}, no_input=True)
+
+
+def replay(d):
+    """./check C19 --replay <file>: re-run the script of a replay object on the tree as it is now; 1 = still fails."""
+    binp = build()
+    bad = 0
+    for l in d.get("script") or []:
+        r = run_impl_chunk(binp, [l])[0]
+        print(l[:400])
+        print("  ->", r["obs"][:1200])
+        op = l.split()[0]
+        v = None
+        if op == "il":
+            su, ms = il_parse(l)
+            v, _, _ = eval_il(su, ms, r)
+        elif op == "rt":
+            v, _ = eval_rt(l, {"lens": [0 if w == "-" else len(w) // 2 for w in l.split()[4:]]}, r)
+        elif "abort" in r:
+            v = ["sanitizer abort %s %s at %s" % (r["abort"]["kind"], r["abort"]["access"], r["abort"]["where"])]
+        if v is None:
+            print(json.dumps(d, indent=1)[:3000])
+            print("this replay names a broken proof obligation or correspondence; re-run ./check C19 to see whether it still breaks")
+            return 1
+        for c in v:
+            print("  FAILS:", c)
+        bad += bool(v)
+    return 1 if bad else 0
